@@ -128,6 +128,10 @@ func innermostRepoFunc(stack string) string {
 	return ""
 }
 
+// checkDeadline bounds the wall-clock time of one check invocation; work not finished by then is
+// reported as inconclusive (never as success).
+var checkDeadline time.Time
+
 func cmdCheck(argv []string) int {
 	id := argv[0]
 	fs := flag.NewFlagSet("check", flag.ExitOnError)
@@ -149,6 +153,16 @@ func cmdCheck(argv []string) int {
 		return 2
 	}
 	start := time.Now()
+	if *tier == "thorough" {
+		checkDeadline = start.Add(6 * time.Hour)
+	} else {
+		checkDeadline = start.Add(12 * time.Minute)
+	}
+	if d := os.Getenv("VERIF_DEADLINE_S"); d != "" {
+		if n, err := strconv.Atoi(d); err == nil {
+			checkDeadline = start.Add(time.Duration(n) * time.Second)
+		}
+	}
 	known := loadKnown()
 	workDir := filepath.Join(verifRoot(), "work", id)
 	os.RemoveAll(workDir)
@@ -186,6 +200,7 @@ func cmdCheck(argv []string) int {
 	violations := []string{}
 	knownHits := map[string]bool{}
 	totalReplays := 0
+	budgetReplays, skippedBudget := 0, 0
 
 	// group jobs by overlay so that each distinct overlay is loaded once
 	type loadedKey string
@@ -282,10 +297,18 @@ func cmdCheck(argv []string) int {
 				continue
 			}
 			sort.Strings(order)
-			// replay distinct signatures natively
+			// replay distinct signatures natively; candidate hangs cost a native timeout each, so only the
+			// first few per check are replayed (the rest are reported as not replayed = inconclusive)
 			var rfs []*ReplayFile
 			for _, sig := range order {
 				c := bySig[sig]
+				if c.o.Kind == "budget" {
+					if budgetReplays >= 6 {
+						skippedBudget++
+						continue
+					}
+					budgetReplays++
+				}
 				rf := &ReplayFile{Property: id, Group: g.Name, Overlay: g.Overlay, Pkg: g.Pkg, Entry: g.Entry, Args: jr.args, Kind: c.o.Kind, Msg: c.o.Msg, Site: c.o.Site, Nondet: c.o.Nondet, Notes: c.o.Notes, Sig: sig, Race: g.Race}
 				rfs = append(rfs, rf)
 			}
@@ -334,6 +357,9 @@ func cmdCheck(argv []string) int {
 		if g.Twin && !twinSeen {
 			inconclusive = append(inconclusive, g.Name+": vacuity twin not reached (harness assertions may be unreachable)")
 		}
+	}
+	if skippedBudget > 0 {
+		inconclusive = append(inconclusive, fmt.Sprintf("%d further candidate non-terminations were not replayed natively (cap of 6 per run)", skippedBudget))
 	}
 	ev.Replays = totalReplays
 	ev.Inconclusive = inconclusive
@@ -423,7 +449,16 @@ func runJobs(l *Loaded, fn *ssa.Function, g *JobGroup, argLists [][]int64, tier 
 					to = 300000
 				}
 			}
-			res := Explore(l.prog, fn, args, ExploreOpts{Workers: workersPer, Solver: solver, TimeoutMs: to, Budget: budget, MaxPaths: g.MaxPaths, MaxFailures: 5000, Verbose: false})
+			// every job also has its own wall-clock limit so that one exploding job cannot starve the others
+			jobLimit := 150 * time.Second
+			if tier == "thorough" {
+				jobLimit = 45 * time.Minute
+			}
+			dl := time.Now().Add(jobLimit)
+			if !checkDeadline.IsZero() && checkDeadline.Before(dl) {
+				dl = checkDeadline
+			}
+			res := Explore(l.prog, fn, args, ExploreOpts{Workers: workersPer, Solver: solver, TimeoutMs: to, Budget: budget, MaxPaths: g.MaxPaths, MaxFailures: 5000, Verbose: false, Deadline: dl})
 			if verbose {
 				fmt.Fprintf(os.Stderr, "job %s%v: paths=%d %v wall=%.1fs\n", g.Name, xs, res.Paths, res.Counts, res.WallS)
 			}
